@@ -117,7 +117,8 @@ def vrun(ctx, main_coro_fn):
 
 
 # ====================================================================================== C15
-def realtime_timing(ctx, nev_a=2, nev_b=1, njobs=1, max_mc=2, idle=True, window_ms=(-50, 100), horizon=0.45):
+def realtime_timing(ctx, nev_a=2, nev_b=1, njobs=1, max_mc=2, idle=True, window_ms=(-50, 100), horizon=0.45,
+                    long_last_job=False):
     lo, hi = START + ms(window_ms[0]), START + ms(window_ms[1])
     mc = ctx.int("max_concurrent", 1, max_mc)
     whens_a = [ctx.dt("when_a%d" % i, lo, hi) for i in range(nev_a)]
@@ -161,7 +162,8 @@ def realtime_timing(ctx, nev_a=2, nev_b=1, njobs=1, max_mc=2, idle=True, window_
                     busy["n"] += 1
                     try:
                         if dur:
-                            await asyncio.sleep(dur)
+                            # (long_last_job: the last job outlives everything else that is in flight)
+                            await asyncio.sleep(dur * 6 if (long_last_job and i == njobs - 1) else dur)
                     finally:
                         busy["n"] -= 1
                 return job
@@ -226,7 +228,7 @@ def realtime_timing(ctx, nev_a=2, nev_b=1, njobs=1, max_mc=2, idle=True, window_
 
 
 # ====================================================================================== C14
-ENDINGS = ["exhausted_or_idle_stop", "stop_from_handler", "handler_error_stops", "external_cancel"]
+ENDINGS = ["exhausted_or_idle_stop", "stop_from_handler", "handler_error_stops", "external_cancel", "external_stop"]
 
 
 def lifecycle(ctx, kind="backtesting", max_mc=3, nprod=2):
@@ -311,8 +313,12 @@ def lifecycle(ctx, kind="backtesting", max_mc=3, nprod=2):
             out["finished_before_cancel"] = t.done()
             out.setdefault("t_end_requested", loop.time())
             t.cancel()
-        elif kind == "realtime" and ending in ("stop_from_handler", "handler_error_stops"):
-            pass
+        elif ending == "external_stop":
+            # stop() from another task: at 5 ms the second producer is still inside initialize()
+            await asyncio.sleep([0.005, 0.015, 0.05][ctx.choice("stop_at", 3)])
+            if not t.done():
+                out.setdefault("t_end_requested", loop.time())
+            d.stop()
         t0 = loop.time()
         try:
             await asyncio.wait_for(asyncio.shield(t), timeout=3000)
@@ -354,7 +360,8 @@ def lifecycle(ctx, kind="backtesting", max_mc=3, nprod=2):
                   info=repr(out["result"]))
     elif fail_phase in ("initialize", "main"):
         ok = (res == "raised" and isinstance(exc, ProducerError)) or \
-             (fail_phase == "main" and res == "returned")      # the run may legitimately end before main() fails
+             (fail_phase == "main" and res == "returned") or \
+             (ending == "external_stop" and res == "returned")  # the run may legitimately end before the failure
         ctx.prove(ok, "C14 a failing producer makes run() raise that producer's error, never an internal error",
                   info=repr(out["result"]))
     else:
